@@ -52,6 +52,14 @@ func RunStructural(w *World, name string) StructResult {
 			break
 		}
 		return storesOf(w, name, spec[:i], strings.Split(spec[i+1:], "|"))
+	case strings.HasPrefix(name, "mapwrites:"):
+		// mapwrites:<Type>.<field>=<k1>|...   every insertion into / deletion from the map held in that field
+		spec := strings.TrimPrefix(name, "mapwrites:")
+		i := strings.Index(spec, "=")
+		if i < 0 {
+			break
+		}
+		return mapWritesOf(w, name, spec[:i], strings.Split(spec[i+1:], "|"))
 	}
 	return StructResult{Name: name, What: "unknown structural check", OK: false, Detail: "not implemented"}
 }
